@@ -126,9 +126,22 @@ func RunConc(s *kernel.Sim, prof *Profile, free bool) *Env {
 	nRestricted := t.Choice(2)
 	e.MakeCallers(nRestricted, []string{"*", e.Names[0], "nomatch", e.Names[0] + "*"})
 	auditPath := filepath.Join(e.Dir, "audit.log")
+	unsyncable := false
 	if free {
 		// real audit file
 		w, err := audit.NewFile(auditPath)
+		if err == nil && t.Bool(1, 6) {
+			// ... or a sink that cannot be synced (the log pointed at
+			// /dev/null, a FIFO, a terminal): fsync reports EINVAL, so every
+			// call fails closed - concurrently
+			if f, ferr := os.OpenFile("/dev/null", os.O_WRONLY, 0); ferr == nil {
+				w.Close()
+				w = audit.New(f)
+				defer f.Close()
+				unsyncable = true
+				s.Fault("audit-sink-unsyncable")
+			}
+		}
 		if err != nil {
 			s.Fail(prof.Prop+".harness", err.Error())
 			return e
@@ -209,7 +222,7 @@ func RunConc(s *kernel.Sim, prof *Profile, free bool) *Env {
 				}
 			}
 			mop := e.ModelOp(op)
-			co := &ConcOp{Client: c, Caller: caller, Op: op,
+			co := &ConcOp{Client: c, Caller: caller, Op: op, Faulted: unsyncable,
 				Allowed: caller.Super || mop.Kind == model.OpList || model.Allows(caller.Rules, mop.Kind.Action(), mop.Name)}
 			ops = append(ops, co)
 			perClient[c] = append(perClient[c], co)
@@ -341,13 +354,19 @@ func RunConc(s *kernel.Sim, prof *Profile, free bool) *Env {
 					// the released goroutine writes beyond a few bytes fails
 					co.Faulted = true
 					diskFull = true
-					setFileSizeLimit(48)
-					s.Fault("disk-full-window")
+					if t.Bool(1, 4) {
+						setNoFileLimit(true)
+						s.Fault("fd-exhausted-window")
+					} else {
+						setFileSizeLimit(48)
+						s.Fault("disk-full-window")
+					}
 				}
 			}
 			s.Release(pick)
 			if diskFull {
 				setFileSizeLimit(0)
+				setNoFileLimit(false)
 			}
 			if s.Failed() {
 				break
@@ -362,6 +381,17 @@ func RunConc(s *kernel.Sim, prof *Profile, free bool) *Env {
 		return e
 	}
 	e.curOps = nil
+	if unsyncable {
+		// nothing can be read out through a handle whose audit log cannot be
+		// synced; this configuration is for the race detector
+		for _, co := range ops {
+			if co.Res.Class == model.OK {
+				e.fail("linearizable", "client %d %s -> %s although the audit log cannot be synced (fsync reports EINVAL): the call must fail closed", co.Client, co.Op, co.Res)
+			}
+		}
+		e.Ops += len(ops)
+		return e
+	}
 
 	// ---- judge: linearizability against the map model ----
 	dump, err := e.Observe()
@@ -428,7 +458,9 @@ func RunConc(s *kernel.Sim, prof *Profile, free bool) *Env {
 		}
 	}
 	if free {
-		e.judgeAuditFile(auditPath, ops)
+		if !unsyncable {
+			e.judgeAuditFile(auditPath, ops)
+		}
 		e.auditFileSharing()
 	}
 	return e
@@ -451,6 +483,30 @@ func SetFileSizeLimit(n uint64) {
 		lim.Cur = n
 	}
 	syscall.Setrlimit(syscall.RLIMIT_FSIZE, &lim)
+}
+
+var noFileSaved uint64
+
+// setNoFileLimit makes every attempt to open a file fail with EMFILE (on) or
+// restores the limit (off): the process has run out of file descriptors.
+func setNoFileLimit(on bool) {
+	var lim syscall.Rlimit
+	if err := syscall.Getrlimit(syscall.RLIMIT_NOFILE, &lim); err != nil {
+		return
+	}
+	if on {
+		if noFileSaved == 0 {
+			noFileSaved = lim.Cur
+		}
+		lim.Cur = 0
+	} else {
+		if noFileSaved == 0 {
+			return
+		}
+		lim.Cur = noFileSaved
+		noFileSaved = 0
+	}
+	syscall.Setrlimit(syscall.RLIMIT_NOFILE, &lim)
 }
 
 // auditFileSharing: the audit log is an O_APPEND file, so (a) two writers on
